@@ -11,12 +11,16 @@ import (
 
 	"github.com/pingcap/kvproto/pkg/pdpb"
 	"github.com/tikv/pd/pkg/grpcutil"
+	"github.com/tikv/pd/pkg/typeutil"
+	"github.com/tikv/pd/server/config"
 	"github.com/tikv/pd/server/tso"
 	"go.etcd.io/etcd/clientv3"
 	"google.golang.org/grpc"
 	"google.golang.org/grpc/codes"
 	"google.golang.org/grpc/status"
 
+	"pdverif/internal/dclife"
+	"pdverif/internal/pdcluster"
 	"pdverif/internal/res"
 )
 
@@ -282,4 +286,128 @@ func (w *world) sameMillisecondWriteProbe(R *res.Result) {
 			fmt.Sprintf("the Local allocator of dc-1 stood at physical %d.%06d ms, logical %d; the write phase of a Global request delivered (%d,%d) and dc-1 was reported synchronised; the next Local timestamp of dc-1 is (physical %d, raw logical %d), not greater", p/1e6, p%1e6, l, max.Physical, max.Logical, t.Physical, raw),
 			map[string]interface{}{"memory_ns": p, "memory_logical": l, "written": []int64{max.Physical, max.Logical}, "local": []int64{t.Physical, raw}})
 	}
+}
+
+// dcLifeProbe: a dc-location joins, serves (moved one hour ahead), loses every member (its allocator group is torn down
+// by the patrol), comes back, and another dc-location joins. A dc-location keeps its suffix for ever, no two share one,
+// and the returning allocator starts above what it granted before.
+func (w *world) dcLifeProbe(R *res.Result) {
+	o := dclife.LeaveAndReturn(w.s, "dc-life", 525252, "dc-late", 535353)
+	if o.Skipped != "" {
+		R.Notes = append(R.Notes, "dc-location life-cycle probe incomplete: "+o.Skipped)
+		return
+	}
+	R.Count("dc-life:probed")
+	if o.SuffixAfter != o.SuffixBefore {
+		R.Violate("C05:suffix-of-a-dc-location-changed:left-and-returned",
+			fmt.Sprintf("dc-life had suffix %d; all its members were removed (allocator group torn down), it joined again and has suffix %d", o.SuffixBefore, o.SuffixAfter),
+			map[string]interface{}{"before": o.SuffixBefore, "after": o.SuffixAfter})
+	}
+	if o.OtherSuffix == o.SuffixAfter || o.OtherSuffix == o.SuffixBefore {
+		R.Violate("C05:suffix-shared-by-two-dc-locations:after-a-dc-location-left",
+			fmt.Sprintf("dc-life has suffix %d (before it left: %d); dc-late, which joined afterwards, was given suffix %d", o.SuffixAfter, o.SuffixBefore, o.OtherSuffix),
+			map[string]interface{}{"dc-life": []int32{o.SuffixBefore, o.SuffixAfter}, "dc-late": o.OtherSuffix})
+	}
+	if o.TSAfter.Physical < o.TSBefore.Physical || (o.TSAfter.Physical == o.TSBefore.Physical && o.TSAfter.Logical <= o.TSBefore.Logical) {
+		R.Violate("C05:local-timestamp-went-back:dc-location-left-and-returned",
+			fmt.Sprintf("dc-life answered (%d,%d), lost all its members, came back and answered (%d,%d)", o.TSBefore.Physical, o.TSBefore.Logical, o.TSAfter.Physical, o.TSAfter.Logical),
+			map[string]interface{}{"before": []int64{o.TSBefore.Physical, o.TSBefore.Logical}, "after": []int64{o.TSAfter.Physical, o.TSAfter.Logical}})
+	}
+}
+
+// mixedFlagPhase: two real members, Local TSO switched off on the one that is PD leader and on on the other, which leads
+// the allocator of its dc-location (a rolling configuration change). Global requests may be refused; an answer has to
+// be above every Local timestamp returned before, below every later one, and never equal. Runs in the background.
+func mixedFlagPhase() func(R *res.Result) {
+	type viol struct {
+		sig, desc string
+		data      interface{}
+	}
+	var viols []viol
+	var notes []string
+	answered, refused := 0, 0
+	done := func(R *res.Result) {
+		for _, v := range viols {
+			R.Violate(v.sig, v.desc, v.data)
+		}
+		R.Notes = append(R.Notes, notes...)
+		R.CountN("mixed-flag:global-answered", answered)
+		R.CountN("mixed-flag:global-refused", refused)
+	}
+	c, err := pdcluster.Start(2, func(i int, cfg *config.Config) {
+		cfg.TSOUpdatePhysicalInterval = typeutil.NewDuration(50 * time.Millisecond)
+		if i == 1 {
+			cfg.EnableLocalTSO = true
+			cfg.Labels = map[string]string{config.ZoneLabel: "dc-2"}
+		}
+	})
+	if err != nil {
+		notes = append(notes, "mixed-flag phase skipped: "+err.Error())
+		return done
+	}
+	defer c.Close()
+	off, on := c.Nodes[0], c.Nodes[1]
+	l := c.WaitLeader(60 * time.Second)
+	if l == nil {
+		notes = append(notes, "mixed-flag phase skipped: no PD leader")
+		return done
+	}
+	if l != off {
+		ctx, cancel := context.WithTimeout(context.Background(), 10*time.Second)
+		err := l.S.GetMember().ResignEtcdLeader(ctx, l.Cfg.Name, off.Cfg.Name)
+		cancel()
+		if err != nil {
+			notes = append(notes, "mixed-flag phase skipped: "+err.Error())
+			return done
+		}
+		for deadline := time.Now().Add(40 * time.Second); c.Leader() != off && time.Now().Before(deadline); {
+			time.Sleep(20 * time.Millisecond)
+		}
+		if c.Leader() != off {
+			notes = append(notes, "mixed-flag phase skipped: the PD leadership did not move to the member without Local TSO")
+			return done
+		}
+	}
+	oam, nam := off.S.GetTSOAllocatorManager(), on.S.GetTSOAllocatorManager()
+	served := false
+	for deadline := time.Now().Add(40 * time.Second); time.Now().Before(deadline); time.Sleep(50 * time.Millisecond) {
+		oam.ClusterDCLocationChecker()
+		nam.ClusterDCLocationChecker()
+		if a, err := nam.GetAllocator("dc-2"); err == nil && a.IsInitialize() && a.(*tso.LocalTSOAllocator).IsAllocatorLeader() {
+			served = true
+			break
+		}
+	}
+	if !served {
+		notes = append(notes, "mixed-flag phase skipped: dc-2 was not served within 40 s")
+		return done
+	}
+	le := func(a, b pdpb.Timestamp) bool {
+		return a.Physical < b.Physical || (a.Physical == b.Physical && a.Logical <= b.Logical)
+	}
+	for r := 0; r < 20 && len(viols) == 0; r++ {
+		l1, err := nam.HandleTSORequest("dc-2", 10)
+		if err != nil {
+			continue
+		}
+		g, err := oam.HandleTSORequest(tso.GlobalDCLocation, 1)
+		if err != nil {
+			refused++
+			continue
+		}
+		answered++
+		l2, err2 := nam.HandleTSORequest("dc-2", 1)
+		switch {
+		case le(g, l1):
+			viols = append(viols, viol{"C05:global-not-above-earlier-local:pd-leader-without-local-tso",
+				fmt.Sprintf("the PD leader runs with enable-local-tso=false while another member leads the allocator of dc-2: dc-2 answered (%d,%d), then a Global request was answered (%d,%d, suffix width %d)", l1.Physical, l1.Logical, g.Physical, g.Logical, g.SuffixBits),
+				map[string]interface{}{"local": []int64{l1.Physical, l1.Logical}, "global": []int64{g.Physical, g.Logical}}})
+		case err2 == nil && le(l2, g):
+			viols = append(viols, viol{"C05:local-not-above-earlier-global:pd-leader-without-local-tso",
+				fmt.Sprintf("the PD leader runs with enable-local-tso=false while another member leads the allocator of dc-2: a Global request was answered (%d,%d), then dc-2 answered (%d,%d)", g.Physical, g.Logical, l2.Physical, l2.Logical),
+				map[string]interface{}{"global": []int64{g.Physical, g.Logical}, "local": []int64{l2.Physical, l2.Logical}}})
+		}
+		time.Sleep(20 * time.Millisecond)
+	}
+	return done
 }
